@@ -1,6 +1,7 @@
 /-
 C09 — witnesses: clauses of the property that are false of the current code, on concrete inputs
 (each mirrored by a `finding:` line of known_findings.txt and a replay function of py/props/c09.py),
+regression theorems for the repaired findings (the now-correct behaviour on the old witness input),
 and the reason why `heuristic_transparent` needs a hypothesis on the text.
 -/
 import WpModel.Model.LineBreak
@@ -29,19 +30,32 @@ theorem anywhere_line_is_maximal :
       = some { length := 2, resume := some 2, width := 20, text := "aa".toList } := by
   decide +kernel
 
-/-- finding `negative-width-unbroken`: `overflow-wrap: anywhere` with a negative available width
-(`text-indent` larger than the block): `int(max_width * 1024) < 0` means "no width" to Pango, the
-whole text `aa b cc` stays on one line (width 70), although it could break after `aa`. -/
-theorem negative_width_line_unbroken :
+/-- regression of the repaired finding `negative-width-unbroken` (fix 3c674e2): `overflow-wrap: anywhere`
+with a negative available width (`text-indent` larger than the block).  `int(max_width * 1024) < 0`
+meant "no width" to Pango and the whole text `aa b cc` stayed on one line (width 70); the width is now
+clamped to 0 and the line is broken down to the smallest unit, one character. -/
+theorem negative_width_line_broken :
     (splitFirstLine (normalStyle .normal .anywhere) "aa b cc".toList (.fin (-10)) true false).toOption
-      = some { length := 7, resume := none, width := 70, text := "aa b cc".toList } := by
+      = some { length := 1, resume := some 1, width := 10, text := "a".toList } := by
   decide +kernel
 
-/-- … while with `overflow-wrap: normal` the same call breaks after the first word -/
+/-- … and with `overflow-wrap: normal` the same call still breaks after the first word -/
 theorem negative_width_normal_breaks :
     (splitFirstLine (normalStyle .normal .normal) "aa b cc".toList (.fin (-10)) true false).toOption
       = some { length := 2, resume := some 3, width := 20, text := "aa".toList } := by
   decide +kernel
+
+/-- the step-5 layout always has a width now: a negative available width behaves like width 0 -/
+theorem step5_width_never_unconstrained (lay : Layout) (text : Text) (W : Rat) :
+    (step5Layout lay text W).width ≠ none := by
+  simp [step5Layout]
+
+theorem step5_negative_width_is_zero (lay : Layout) (text : Text) (W : Rat) (h : W ≤ 0) :
+    step5Layout lay text W = step5Layout lay text 0 := by
+  have hm : max 0 W = max 0 (0 : Rat) := by
+    rw [Rat.max_def, Rat.max_def]
+    split <;> split <;> grind
+  simp only [step5Layout, hm]
 
 /-- `heuristic_transparent` is false for arbitrary texts: with a space before a preserved newline
 under a collapsing `white-space` (a text `process_whitespace` never produces) the result depends on
@@ -97,6 +111,40 @@ theorem inline_box_width_stale :
         | _ => [])))) = some (some [(70, [30])]) := by
   decide +kernel
 
+/-- finding `waiting-box-boundary-opportunity-unused`: `<span><i>rr </i>anin</span>sss` in a 75px block:
+one line of 100px.  When `sss` overflows, `_break_waiting_children` asks `can_break_inside` of the waiting
+span, which looks only *inside* its text boxes (`rr `: none, `anin`: none) and never at the boundary
+between its two children, so the opportunity after `rr ` is not used … -/
+theorem boundary_opportunity_in_waiting_box_unused :
+    lineWidths (inlinePara 75 [.box 0 0 false [.box 0 0 false [.text "rr ".toList], .text "anin".toList],
+      .text "sss".toList]) = some [100] := by
+  decide +kernel
+
+/-- … while the same text in one text box, `<span>rr anin</span>sss`, is broken after `rr`. -/
+theorem same_text_in_one_box_breaks :
+    lineWidths (inlinePara 75 [.box 0 0 false [.text "rr anin".toList], .text "sss".toList]) = some [20, 70] := by
+  decide +kernel
+
+/-- finding `preserved-line-break-flag-stale-after-rebreak`: `white-space: pre-line`, 120px,
+`text-align-last: right`, `uuuu wwwww<span>rrrrr\nx</span> jjj`.  The span's text ends the line at a
+preserved line break (`preserved_line_break = True`), but it overflows and `_break_waiting_children`
+re-breaks the waiting text after `uuuu `: the first line `uuuu` is returned with the stale flag and is
+aligned as a last line (x = 80) although no forced break follows it … -/
+theorem shortened_line_aligned_as_last :
+    (IR.paragraph { inlinePara 120 [.text "uuuu wwwww".toList, .box 0 0 false [.text "rrrrr\nx".toList], .text " jjj".toList] with
+        st := { ws := .preLine, wb := .normal, ow := .normal, fs := 10 },
+        align := { alignAll := .start, alignLast := some .right, ws := .preLine, rtl := false } }).toOption.map
+      (fun ls => ls.map (fun l => (l.x, l.w))) = some [(80, 40), (20, 100), (70, 50)] := by
+  decide +kernel
+
+/-- … while without the preserved line break in the span the same first line is at the start edge. -/
+theorem shortened_line_without_newline_at_start :
+    (IR.paragraph { inlinePara 120 [.text "uuuu wwwww".toList, .box 0 0 false [.text "rrrrr x".toList], .text " jjj".toList] with
+        st := { ws := .preLine, wb := .normal, ow := .normal, fs := 10 },
+        align := { alignAll := .start, alignLast := some .right, ws := .preLine, rtl := false } }).toOption.map
+      (fun ls => ls.map (fun l => (l.x, l.w))) = some [(0, 40), (0, 120), (90, 30)] := by
+  decide +kernel
+
 /-! ### vertical placement (`Model/LineVertical`) -/
 
 def vst (fs : Rat) (va : LV.VAlign) : LV.VStyle :=
@@ -113,15 +161,24 @@ def allYsL : List LV.VBox → List Rat
   | k :: ks => allYs k ++ allYsL ks
 end
 
-/-- finding `vertical-align-top-bottom-subtree`:
+/-- regression of the repaired finding `vertical-align-top-bottom-subtree` (fix 5152049):
 `aa <span style="vertical-align:top"><b style="font-size:20px">dd</b></span>` at 10px: the line box is
-`[0, 20]`; of the boxes `aa`, `<span>`, `<b>`, `dd` the last one — 20px high — is at y = −8: the `<b>`
-box was moved with its parent to the top of the line, its text was left behind, above the line box
-and over the previous line. -/
-theorem top_aligned_grandchild_left_behind :
+`[0, 20]`; the boxes `aa`, `<span>`, `<b>`, `dd` are at y = 0, 8, 0, 0.  Before the fix the text `dd`
+(20px high) was left behind at y = −8, above the line box and over the previous line: `translate_subtree`
+moved the `<b>` box with its parent but not its text. -/
+theorem top_aligned_grandchild_moves_with_subtree :
     (LV.layoutLine (vst 10 .baseline)
       [.text (vst 10 .baseline), .box (vst 10 .top) [.box (vst 20 .baseline) [.text (vst 20 .baseline)]]] 0).toOption.map
-      (fun l => (l.y, l.height, allYsL l.kids)) = some (0, 20, [0, 8, 0, -8]) := by
+      (fun l => (l.y, l.height, allYsL l.kids)) = some (0, 20, [0, 8, 0, 0]) := by
+  decide +kernel
+
+/-- a `bottom` box nested in a `top` box is aligned on its own, once (it used to be moved twice):
+`<span style="vertical-align:top;line-height:30px"><i style="vertical-align:bottom">x</i></span>` at 10px in
+a line `[0, 30]`: the `<i>` box and its text end at the bottom of the line box (y = 20, 10 high). -/
+theorem nested_bottom_in_top_aligned_once :
+    (LV.layoutLine (vst 10 .baseline)
+      [.box { vst 10 .top with lh := .px 30 } [.box (vst 10 .bottom) [.text (vst 10 .baseline)]]] 0).toOption.map
+      (fun l => (l.y, l.height, allYsL l.kids)) = some (0, 30, [0, 20, 20]) := by
   decide +kernel
 
 /-! ### lines next to floats -/
